@@ -46,7 +46,7 @@ func genC20(rt *rapid.T) interface{} {
 	if rapid.Bool().Draw(rt, "manyvariants") {
 		sc.First = rapid.IntRange(0, 6000).Draw(rt, "firstv")
 	}
-	n := rapid.IntRange(1, 9).Draw(rt, "nops")
+	n := rapid.IntRange(1, tierScale(9)).Draw(rt, "nops")
 	kinds := []string{"restart", "restart", "restart", "pair-setup", "pair-add", "unpair", "unpair", "set", "set", "probe"}
 	for i := 0; i < n; i++ {
 		op := C20Op{Kind: rapid.SampledFrom(kinds).Draw(rt, "kind"), Arg: rapid.IntRange(0, 11).Draw(rt, "arg")}
